@@ -13,6 +13,7 @@ import (
 	"verif/checks/c04"
 	"verif/checks/c05"
 	"verif/checks/c06"
+	"verif/checks/c07"
 	"verif/checks/c08"
 	"verif/checks/c09"
 	"verif/checks/c11"
@@ -36,6 +37,7 @@ var checks = map[string]check{
 	"C04": {"exploration", c04.Run, c04.Replay},
 	"C05": {"exploration", c05.Run, c05.Replay},
 	"C06": {"model_checking", c06.Run, c06.Replay},
+	"C07": {"exploration", c07.Run, c07.Replay},
 	"C08": {"exploration", c08.Run, c08.Replay},
 	"C09": {"fault_enumeration", c09.Run, c09.Replay},
 	"C11": {"model_checking", c11.Run, c11.Replay},
